@@ -27,4 +27,6 @@ def run(rep, tier, seed):
     rep.level = "exploration"
     rep.assume("A1", "A4", "A6", "A8")
     D.run_static(rep, "C11", ("clock", "purity"), only_files=("complete_greedy.py", "cbldm.py", "complete_karmarkar_karp_sy.py", "karmarkar_karp_sy.py"))
+    D.run_contracts(rep, "C11", D.c11(), tier)
     t3(rep, tier, seed)
+    D.link_falsifier(rep)
